@@ -309,6 +309,18 @@ def check_const_queries(db, rep, unit_name='SQuIDS', floors=True, record='squids
                 if node.get('args') and root_is_this(node['args'][0]):
                     bad = (node, 'operator%s applied to solver state' % node.get('oop'))
                     break
+            if k in ('CallExpr', 'CXXMemberCallExpr', 'CXXOperatorCallExpr', 'CXXConstructExpr'):
+                # storage reached from the object handed to a callee through a pointer to non-const (what a smart pointer
+                # member's get() yields even in a const member function): the callee may write the shared object
+                for a in node.get('args') or []:
+                    t = (a.get('t') or '').strip()
+                    if t.endswith('*') or t.endswith('*const'):
+                        pointee = t[:t.rindex('*')]
+                        if 'const' not in pointee.split() and root_is_this(a):
+                            bad = (node, 'storage of the solver is passed as %s to %s, which may write it' % (t, node.get('callee') or 'a callee'))
+                            break
+                if bad:
+                    break
         if bad:
             rep.fail('E.const.write', sig(f), unit.loc(bad[0]), 'a const query writes only locals and thread-locals', bad[1], sig(f))
         else:
